@@ -10,14 +10,17 @@ def truthy(v):
 
 
 @st.composite
-def ballot(draw, cands, p_missing=0.15, max_marks=None):
+def ballot(draw, cands, p_missing=0.15, max_marks=None, write_in=False):
     """One card's votes in one contest: dict cand -> mark, {} (blank) or None (card lacks the contest)."""
     r = draw(st.integers(0, 99))
     if r < 100 * p_missing:
         return None
     if r < 100 * p_missing + 8:
         return {}
-    shape = draw(st.sampled_from(["one", "one", "one", "any", "over", "falsy"]))
+    shape = draw(st.sampled_from(["one", "one", "one", "any", "over", "falsy"] + (["write-in-only"] if write_in else [])))
+    if shape == "write-in-only":
+        # a mark for somebody who is not a candidate of the contest and nothing else: no vote for any candidate
+        return {"WRITE_IN": draw(st.sampled_from([True, 1, "x"]))}
     if shape == "one":
         return {draw(st.sampled_from(cands)): draw(st.sampled_from([True, 1, 2, "x"]))}
     if shape == "falsy":
@@ -227,6 +230,8 @@ def sampling_plan(draw, scn):
     n = len(scn["cards"])
     nums = draw(st.permutations(list(range(1, n + 1))))
     scale = draw(st.sampled_from([1, 1, 7, 10 ** 6, 2 ** 61, "close", "close"]))
+    if draw(st.integers(0, 3)) == 0:
+        nums = [int(v) - 1 for v in nums]   # numbering from 0: the first card's number is 0
     if scale == "close":
         # 65..256-bit numbers that differ only in their low bits (sample numbers are 256-bit integers in practice)
         base = draw(st.sampled_from([2 ** 64, 2 ** 200, 2 ** 255 + 2 ** 254, 10 ** 30]))
